@@ -250,7 +250,23 @@ func TestC16_Log(t *testing.T) {
 				steps = append(steps, "clear")
 			},
 			"views": func(t *rapid.T) { c16Views(t, sh, model, steps) },
-			"":      func(t *rapid.T) { c16Compare(t, sh, model, max, steps) },
+			"": func(t *rapid.T) {
+				c16Compare(t, sh, model, max, steps)
+				// the derived views after EVERY step (a view that remembers an earlier answer shows up here)
+				distinct := map[string]bool{}
+				for _, m := range model {
+					distinct[m.q] = true
+				}
+				if st := sh.GetStats(); st.TotalSearches != len(model) || st.UniqueQueries != len(distinct) {
+					t.Fatalf("stats report %d searches / %d distinct queries, the log holds %d / %d; steps=%v", st.TotalSearches, st.UniqueQueries, len(model), len(distinct), steps)
+				}
+				if top := sh.GetTopQueries(1000); len(top) != len(distinct) {
+					t.Fatalf("GetTopQueries lists %d queries, the log holds %d distinct ones; steps=%v", len(top), len(distinct), steps)
+				}
+				if rq := sh.GetRecentQueries(1000); len(rq) != len(distinct) || (len(model) > 0 && rq[0] != model[len(model)-1].q) {
+					t.Fatalf("GetRecentQueries = %q, the log holds %d distinct queries ending in %q; steps=%v", rq, len(distinct), model[len(model)-1].q, steps)
+				}
+			},
 		})
 		labels := []string{"log", fmt.Sprintf("max:%d", maxIn)}
 		if reloads > 0 {
